@@ -250,10 +250,13 @@ def gen_history(rng, n_edits, hidx):
             if inserted and rng.chance(2, 3):
                 edits.append("remove_type:%s" % inserted.pop())
             else:
-                # the name decides where the type sorts among the existing ones
-                name = "%sVerifExtra%d_%d" % (rng.pick(["", "Aa", "Zz", "Zz"]), hidx, i)
+                # kinds, name prefixes (where the type sorts) and target modules are cycled with co-prime periods, so
+                # that a batch of histories covers their combinations instead of leaving that to chance
+                ins = hidx * 5 + i
+                kind = ["opaque_impl", "trait", "struct", "opaque", "enum", "opaque_impl", "trait"][ins % 7]
+                name = "%sVerifExtra%d_%d" % (["Aa", "", "Zz"][ins % 3], hidx, i)
                 inserted.append(name)
-                edits.append("insert_type:%s:%s:%d" % (name, rng.pick(["opaque", "struct", "enum", "trait", "opaque_impl", "opaque_impl", "opaque_impl"]), rng.pick([0, 0, 1000, 2000]) + rng.below(64)))
+                edits.append("insert_type:%s:%s:%d" % (name, kind, [2000, 0, 1000, 0][ins % 4] + rng.below(64)))
         else:
             if nonbridge and rng.chance(1, 2):
                 edits.append("remove_nonbridge")
